@@ -32,7 +32,7 @@ def main():
         if rc != 0:
             rec["apply_error"] = out[-300:]
             print(json.dumps(rec, indent=1)); return 1
-        rc, out = sh(f"{WTPY} {wt} -m pytest -q -p no:cacheprovider tests -x -q --deselect tests/integration/test_cubepart.py::Test_LegacySlice::test_profiles_percentages_add_up_to_100", cwd=wt)
+        rc, out = sh(f"{WTPY} {wt} -m pytest -q -p no:cacheprovider tests -x --deselect tests/integration/test_cubepart.py::Test_LegacySlice::test_profiles_percentages_add_up_to_100", cwd=wt)
         rec["suite_with_change"] = out.strip().splitlines()[-1]
         rec["suite_passes_with_change"] = rc == 0
         rc, out = sh(f"{WTPY} {wt} {demo}", cwd=wt)
@@ -56,8 +56,6 @@ def main():
             fired[p] = {"exit": rc, "findings": [v[:220] for v in viol][:6], "undecided": [x[:200] for x in und][:4]}
     finally:
         sh("git checkout -- .", cwd="/repo")
-        for p in props:  # restore evidence of the unchanged tree
-            sh(f"./check {p} quick", cwd="/verif")
     rec["checks_on_change"] = fired
     if confirmed:
         dst = os.path.join("/verif/seeded", sid)
